@@ -195,7 +195,8 @@ def run(tier, seed, replay):
         cfg = sp["cfg"]
         h = []
         for s in cfg["services"]:
-            h += [{"op": "get", "name": s}, {"op": "getctx", "name": s}, {"op": "getter", "name": cfg["services"][s]["getter"]}]
+            h += [{"op": "get", "name": s}, {"op": "getctx", "name": s}, {"op": "getter", "name": cfg["services"][s]["getter"]},
+                  {"op": "getterctx", "name": cfg["services"][s]["getter"] + "InContext"}]
         h += [{"op": "param", "name": p} for p in cfg["parameters"]] + [{"op": "tagged", "name": "tg"}, {"op": "taggedctx", "name": "tg"}]
         hists.append(h)
     # build with the race detector
@@ -238,7 +239,8 @@ def run(tier, seed, replay):
             k, rr = job
             # odd runs: 6 contexts shared by 4 goroutines each, constructors yield the processor; even runs: one context per goroutine
             return job, subprocess.run([os.path.join(bindir, names[k]), os.path.join(b.dir, names[k] + ".ops.json"), "concurrent", "24", "2", str(seed * 100 + rr), "6" if rr % 2 else "24"],
-                                       env=dict(penv, **({"GV_YIELD": "1"} if rr % 2 else {})), stdout=subprocess.PIPE, stderr=subprocess.PIPE, text=True, timeout=600)
+                                       # (every third run: the odd contexts are cancelled while their goroutines work)
+                                       env=dict(penv, **dict({"GV_YIELD": "1"} if rr % 2 else {}, **({"GV_CANCEL": "1", "GV_YIELD": "1"} if rr % 3 == 2 else {}))), stdout=subprocess.PIPE, stderr=subprocess.PIPE, text=True, timeout=600)
         with ThreadPoolExecutor(5) as ex:
             probed = dict(ex.map(_probe, jobs))
         for k, name in names.items():
@@ -265,6 +267,15 @@ def run(tier, seed, replay):
                     break
                 lines = [json.loads(l) for l in q.stdout.splitlines() if l.strip()]
                 inv = lines[0]["v"]
+                if rr % 3 == 2:
+                    # cancellation run: what a cancelled context gets is not judged (nor are the counters: a cancelled build may never happen);
+                    # races and crashes were looked for above, the goroutines of live contexts are judged as usual
+                    dist["cancel_runs"] = dist.get("cancel_runs", 0) + 1
+                    lines = [lines[0]] + [g_ for g_ in lines[1:] if not g_.get("cancelled")]
+                    live_failed = sorted({(o["op"], o["name"]) for g_ in lines[1:] for o in g_["obs"] if o.get("err")})
+                    if live_failed:
+                        out.violation("concurrent-op-fails", "operations in contexts that were NOT cancelled fail while other contexts are being cancelled: %s" % live_failed[:5], rep)
+                    continue
                 failed = sorted({(o["op"], o["name"]) for g in lines[1:] for o in g["obs"] if o.get("err")})
                 if failed:
                     # none of these configurations has a failing constructor, function or reference: sequentially every operation succeeds
